@@ -35,6 +35,15 @@ CHECKS = {
  "C07": dict(cat="exploration", tech="reference-model monitor on directive expansions (worker) + leftover scan of real build outputs + reference parser acceptance",
    text="Every output file of every explored configuration is scanned for a leftover `#aa:`; every shipped dbus/exec/stack directive and 1800 / 37000 generated ones are expanded by the real directive.Run in a minimal host with a real build directory as root and the generated text is compared with the documented expansion (bus, bind, peer label, path, interfaces; requested transition per executable; ordered body minus the three exclusions, host rules untouched); distinct shipped dbus expansions are parsed by apparmor_parser.",
    note="Trusted: the harness scanner; the exact executable set of exec directives is judged by C06 (language equivalence), here only transition, duplicates and a lower bound; comment lines are not rules.", ref="5 C07"),
+ "C06": dict(cat="translation_validation", tech="translation validation against the reference parser: stub policy with @{exec_path} vs stub with the built literal, compiled by apparmor_parser; automata equivalence with witness when bytes differ",
+   text="For every built profile whose source attaches through @{exec_path} (all ~1400, per distribution) and every exec-directive target, a stub policy using the variable over the shipped tunables of that build and a stub using the literal text the build produced are compiled by the reference parser: equal bytes = same set of executables; different bytes are settled by language equivalence of the two dumped attachment automata, with a shortest path matched by one side only as witness. Generated preambles go through the real userspace builder the same way.",
+   note="Trusted: apparmor_parser 3.0.8 (canonical compiled output; -D dfa-states dumps parsed by vlib/dfa.py, ambiguous dumps are inconclusive). programs = stub pairs compiled, disagreements_checked = pairs settled by automata.", ref="5 C06"),
+ "C09": dict(cat="exploration", tech="round-trip monitor in the worker: generated valid rules/blocks/files printed and re-parsed by the real library, intent model for the first parse, interleaved file parses for carried state",
+   text="5000 / 150000 generated valid rules of all kinds (validity: Validate() and, for AppArmor-3 kinds, acceptance of the harness's canonical rendering by apparmor_parser), 500 / 15000 blocks after Merge+Sort+Format and 500 / 15000 profile files: parse(canonical text) must equal the generator's intent field by field, parse(print(r)) must equal r and print again the same text; the same rules are parsed again interleaved with profile-file parses in one process and must give the same result.",
+   note="Trusted: the generator's canonical printer (calibrated by the reference parser). Trailing special comments (file_inherit, no new privs, optional:) are not generated.", ref="5 C09"),
+ "C11": dict(cat="exploration", tech="algebraic-law monitor on Rule.Compare / Rules.Sort over generated triples, permuted lists and the complete matrix of shipped includes",
+   text="20000 / 600000 same-kind triples (strata: file rules with known / unknown / mixed prefixes, near-duplicates differing in one letter's case, one byte or one flag) checked for antisymmetry, transitivity and equal-only-if-identical; 2000 / 60000 lists x 8 permutations for idempotent, order-independent Sort; all ~400 shipped abstractions as include rules compared pairwise (complete matrix, consistency with a linear order).",
+   note="Trusted: rule identity = canonical text with set-valued fields sorted. Paths containing '=' are outside this domain (finding C09/equals-in-path).", ref="5 C11"),
 }
 REASONS = {}
 props = [json.loads(l) for l in open(os.path.join(V, "properties.jsonl"))]
